@@ -16,10 +16,12 @@ func init() {
 		explanation: "Static clauses of 'checkpoint serialisation round-trips every supported value or fails loudly' (round-trip equality over the value universe is out of static reach; decided are the encoder/decoder agreement and the fail-loudly discipline): " +
 			"(codec-agree) the set of wire-struct fields written by the encoder equals the set read by the decoder; " +
 			"(kind-siblings) every successful encoder exit has set exactly the discriminator of its arm (Type / StructType / MapKeyType / SliceValueType), the decoder dispatches on the same four; the only 'no value' result (nil, nil) is for a nil interface input; " +
+			"(key-codec-symmetric) map keys are json-encoded by the writer and json-decoded by the reader under the same condition (today unconditionally; a conditional treatment must use the same predicate class on both sides); " +
+			"(registry-bijective) GenericRegister writes name->type and type->name only when both the name and the type are absent, and nobody else writes the registries; " +
 			"(fail-loudly) every registry lookup is comma-ok with an error-returning miss arm; no error result of a recursive / json / sonic call is dropped; " +
 			"(fresh-holders) decode targets (reflect.New) used inside a loop are allocated per entry; " +
 			"(registered-closure) the framework's own persisted types (checkpoint, channel implementations) only contain leaf types that are registered, basic or interfaces.",
-		decided:    []string{"codec-agree", "kind-siblings", "fail-loudly", "fresh-holders", "registered-closure"},
+		decided:    []string{"codec-agree", "kind-siblings", "key-codec-symmetric", "registry-bijective", "fail-loudly", "fresh-holders", "registered-closure"},
 		notDecided: []string{"deep equality of Unmarshal(Marshal(v)) and v over the recursive value universe (observations: a nil pointer below a non-nil pointer (**T) decodes as a nil outer pointer; interface-typed map keys decode as their JSON types) — no static rule here reports them", "behaviour of sonic/encoding/json", "user types registered at run time"},
 		run:        runC12,
 	})
